@@ -53,9 +53,11 @@ def rereadTable : LitKind → Option Scalar
   | .Float64 => some .float64
   | .Str => none
 
-/-- the suffix kind `generate_literal` emits for a constant of kind `k` (any value: all arms of one kind agree) -/
+/-- the suffix kind `generate_literal` emits for a constant of kind `k` (any value: all emitting arms of one kind
+    agree; an arm that panics or — since fix 6017bad, `IntLiteral` beyond ±u64::MAX — returns
+    `Err(GenerateError::IntLiteralOutOfRange)` emits nothing: there is no text to read again) -/
 def emittedLitKind (k : ConstKind) : Option LitKind :=
-  match literalArms.find? (fun a => a.1 == k && (match a.2.2 with | .panics => false | _ => true)) with
+  match literalArms.find? (fun a => a.1 == k && (match a.2.2 with | .panics => false | .errs _ => false | _ => true)) with
   | some (_, _, .plain l) => some l
   | some (_, _, .widen l) => some l
   | some (_, _, .negMinus l) => some l
